@@ -104,7 +104,7 @@ fn is_whole_lines(payload: &[u8], lines: &[Vec<u8>], term: &[u8]) -> bool {
 /// Two layers. Layer A (C05/C06/C07) is permissive about *when* a write happens: any write must
 /// carry a non-empty in-order prefix of the accepted-but-unwritten lines (or one oversize metric
 /// alone), failures change nothing, results must tell the truth, and what a successful flush or
-/// drop leaves behind is nothing. Layer B (C19, fault-free histories only) is strict about timing
+/// drop leaves behind is nothing. Layer B (C19; under refused writes with a prefix rule) is strict about timing
 /// and packing: writes happen exactly where greedy in-order packing puts them.
 pub fn check_history(cfg: &ModelCfg, calls: &[CallRec], out: &mut Outcome) {
     let cap = cfg.cap;
